@@ -533,8 +533,25 @@ class SparsityOf(NativeModel):
         return self.nnz() == self._m.r * self._m.c
 
 
+def _exact_int_fn(name):
+    import math as _m
+
+    def f(*a):
+        if all(isinstance(x, int) and not isinstance(x, bool) for x in a):
+            try:
+                return getattr(_m, name)(*a)
+            except ValueError as e:
+                raise cm.InterpRaise("ValueError", str(e))
+        raise cm.Unsupported("math.%s of a non-integer value" % name)
+    return f
+
+
 class MathModel:
     pi = cm.PI
+    factorial = staticmethod(_exact_int_fn("factorial"))     # exact integer functions (Bernstein / derivative gains)
+    comb = staticmethod(_exact_int_fn("comb"))
+    perm = staticmethod(_exact_int_fn("perm"))
+    gcd = staticmethod(_exact_int_fn("gcd"))
 
     def __getattr__(self, k):
         return Stub("math." + k)
